@@ -135,6 +135,11 @@ structure Src where
   let p : Int := (s.bytes.length : Int) + off
   if p < 0 then (.error .invalidSeek, s) else (.ok p.toNat, { s with pos := p.toNat })
 
+/-- `reader.seek(SeekFrom::Start(n))` on an in-memory source: always succeeds (`io::Cursor` lets the position pass
+    the end; reads there deliver nothing). -/
+@[inline] def Src.seekStart (s : Src) (n : Nat) : Except IoErr Nat × Src :=
+  (.ok n, { s with pos := n })
+
 /-- `read_exact` of `n` bytes. -/
 @[inline] def Src.readN (s : Src) (n : Nat) : Except IoErr (List UInt8) × Src :=
   if s.pos + n ≤ s.bytes.length then (.ok ((s.bytes.drop s.pos).take n), { s with pos := s.pos + n })
